@@ -109,7 +109,31 @@ def run(tier, seed):
                     unconfirmed += 1
                     chk.machinery_error('MachineMC reported %s for %s %s on %s but the binary does not show it: %s'
                                         % (r['kind'], p.name, p.args, r['hist'], json.dumps(detail)[:600]))
+        # bounded-exhaustive family (yield + EOF support, indirect pointer): STALL / FAILNOTABS on the machines, confirmed on lazily built binaries
+        from props import enumfam
+        e_items, e_asts, e_info = enumfam.slice_(tier, seed, scale=2)
+        e_items = [(n, s, [a for a in args if a.startswith('-O')] + ['-fyield-support', '-feof-support']) for n, s, args in e_items]
+        e_items = [(n, s if 'yieldcode' in s else s.replace('parser {', 'yieldcode Y0;\nparser {', 1), a) for n, s, a in e_items]
+        e_progs = runner.compile_programs(e_items, want=('machine', 'codegen'))
+        e_ok = [p for p in e_progs if p.ok]
+
+        def e_classify(q, r, detail):
+            if r['kind'] == 'FAILNOTABS':
+                first = next((c for c, rcs in detail['calls'][1:] if 'FAIL' in rcs), None)
+                return 'end-fail-not-absorbing' if first == 256 else None
+            stq = q.m['states'][r['q']] if 0 <= r.get('q', -1) < len(q.m['states']) else None
+            if stq and stq['kind'] == 'normal' and stq['trans'] and all(not t['on'] and not t['els'] and not t['end'] for t in stq['trans']):
+                return 'cond-point-at-end-stalls'
+            return None
+        est, ecount, econf = enumfam.machine_reports(chk, e_ok, ('STALL', 'FAILNOTABS'), e_classify, budget=3000 if quick else 20000,
+                                                     timeout=1600 if quick else 9000, post=2)
+        for k, v in ecount.items():
+            kinds[k] = kinds.get(k, 0) + v
+        confirmed += econf
+        st['states'] += est['states']
+        st['transitions'] += est['transitions']
         chk.coverage = {
+            'enumerated_family': enumfam.describe(e_info, len(e_ok)),
             'states': out['stats']['states'] + st['states'], 'transitions': out['stats']['transitions'] + st['transitions'],
             'traces_validated_against_impl': out['counts']['ACCEPT'] + confirmed,
             **ctrace.cover_cov(out),
